@@ -260,4 +260,394 @@ theorem encBody_of_depth {X Y : Type} [DecidableEq X] (F : Flavour X Y) (max max
                     simpa using hb'
           simp [this]
           simpa using h
+theorem exists_deep_list {X Y : Type} (vs : List (Value X Y)) (n : Nat) (h : n < depthList vs) :
+    ∃ v ∈ vs, n < v.depth := by
+  apply Classical.byContradiction
+  intro hc
+  have : depthList vs ≤ n := (depthList_le vs n).2 (fun v hv => by
+    have : ¬ (n < v.depth) := fun hlt => hc ⟨v, hv, hlt⟩
+    omega)
+  omega
+
+theorem exists_deep_entries {X Y : Type} (es : List (Value X Y × Value X Y)) (n : Nat) (h : n < depthEntries es) :
+    ∃ e ∈ es, n < e.1.depth ∨ n < e.2.depth := by
+  apply Classical.byContradiction
+  intro hc
+  have : depthEntries es ≤ n := (depthEntries_le es n).2 (fun e he => by
+    have : ¬ (n < e.1.depth ∨ n < e.2.depth) := fun hlt => hc ⟨e, he, hlt⟩
+    omega)
+  omega
+
+/-- A value that is encodable at all is rejected with `MaxDepthExceeded` (and nothing else) when the
+limit is below its depth. -/
+theorem encBody_depth_fail {X Y : Type} [DecidableEq X] (F : Flavour X Y) (max max' rem : Nat) :
+    ∀ (v : Value X Y) (b : Bytes) (rem' : Nat), encBody F max rem v = .ok b → rem' < v.depth →
+      encBody F max' rem' v = .error (.maxDepthExceeded max') := by
+  induction rem with
+  | zero => intro v b rem' h; simp [encBody] at h
+  | succ rem ih =>
+    intro v b rem' h hd
+    cases rem' with
+    | zero => simp [encBody]
+    | succ r' =>
+      -- element-wise: each element either encodes (shallow) or fails with MaxDepthExceeded (deep)
+      have hel : ∀ (a : Value X Y) (b' : Bytes), encBody F max rem a = .ok b' →
+          (∃ b'', encBody F max' r' a = .ok b'') ∨ encBody F max' r' a = .error (.maxDepthExceeded max') := by
+        intro a b' hb'
+        by_cases hda : a.depth ≤ r'
+        · exact .inl ⟨b', encBody_of_depth F max max' rem a b' r' hb' hda⟩
+        · exact .inr (ih a b' r' hb' (by omega))
+      cases v with
+      | bool _ => simp [Value.depth] at hd
+      | int _ _ => simp [Value.depth] at hd
+      | string _ => simp [Value.depth] at hd
+      | custom _ => simp [Value.depth] at hd
+      | enum d fs =>
+        simp only [Value.depth] at hd
+        simp only [encBody] at h ⊢
+        split at h
+        · simp at h
+        · rename_i sz hsz
+          split at h
+          · simp at h
+          · rename_i body hb
+            have : encMany (encField F (encBody F max' r')) fs = .error (.maxDepthExceeded max') := by
+              apply encMany_error_of
+              · intro a ha
+                obtain ⟨b', hb'⟩ := encMany_ok_elem _ _ _ hb a ha
+                simp only [encField] at hb' ⊢
+                split at hb'
+                · simp at hb'
+                · rename_i b'' hb''
+                  rcases hel a b'' hb'' with ⟨c, hc⟩ | he
+                  · left; simp [hc]
+                  · right; simp [he]
+              · obtain ⟨a, ha, hda⟩ := exists_deep_list fs r' (by omega)
+                obtain ⟨b', hb'⟩ := encMany_ok_elem _ _ _ hb a ha
+                simp only [encField] at hb'
+                split at hb'
+                · simp at hb'
+                · rename_i b'' hb''
+                  exact ⟨a, ha, by simp [encField, ih a b'' r' hb'' hda]⟩
+            simp [this]
+      | tuple fs =>
+        simp only [Value.depth] at hd
+        simp only [encBody] at h ⊢
+        split at h
+        · simp at h
+        · rename_i sz hsz
+          split at h
+          · simp at h
+          · rename_i body hb
+            have : encMany (encField F (encBody F max' r')) fs = .error (.maxDepthExceeded max') := by
+              apply encMany_error_of
+              · intro a ha
+                obtain ⟨b', hb'⟩ := encMany_ok_elem _ _ _ hb a ha
+                simp only [encField] at hb' ⊢
+                split at hb'
+                · simp at hb'
+                · rename_i b'' hb''
+                  rcases hel a b'' hb'' with ⟨c, hc⟩ | he
+                  · left; simp [hc]
+                  · right; simp [he]
+              · obtain ⟨a, ha, hda⟩ := exists_deep_list fs r' (by omega)
+                obtain ⟨b', hb'⟩ := encMany_ok_elem _ _ _ hb a ha
+                simp only [encField] at hb'
+                split at hb'
+                · simp at hb'
+                · rename_i b'' hb''
+                  exact ⟨a, ha, by simp [encField, ih a b'' r' hb'' hda]⟩
+            simp [this]
+      | array ek es =>
+        simp only [Value.depth] at hd
+        simp only [encBody] at h ⊢
+        split at h
+        · simp at h
+        · rename_i sz hsz
+          split at h
+          · simp at h
+          · rename_i body hb
+            have : encMany (encElem F ek (encBody F max' r')) es = .error (.maxDepthExceeded max') := by
+              apply encMany_error_of
+              · intro a ha
+                obtain ⟨b', hb'⟩ := encMany_ok_elem _ _ _ hb a ha
+                simp only [encElem] at hb' ⊢
+                split at hb'
+                · simp at hb'
+                · rename_i hkind
+                  simp only [hkind, if_false]
+                  exact hel a b' hb'
+              · obtain ⟨a, ha, hda⟩ := exists_deep_list es r' (by omega)
+                obtain ⟨b', hb'⟩ := encMany_ok_elem _ _ _ hb a ha
+                simp only [encElem] at hb'
+                split at hb'
+                · simp at hb'
+                · rename_i hkind
+                  exact ⟨a, ha, by simp only [encElem, hkind, if_false]; exact ih a b' r' hb' hda⟩
+            simp [this]
+      | map kk vk es =>
+        simp only [Value.depth] at hd
+        simp only [encBody] at h ⊢
+        split at h
+        · simp at h
+        · rename_i sz hsz
+          split at h
+          · simp at h
+          · rename_i body hb
+            -- facts about one entry that encodes at `rem`
+            have hentry : ∀ e ∈ es, e.1.kind F = kk ∧ e.2.kind F = vk ∧
+                (∃ kb, encBody F max rem e.1 = .ok kb) ∧ (∃ vb, encBody F max rem e.2 = .ok vb) := by
+              intro e he
+              obtain ⟨b', hb'⟩ := encMany_ok_elem _ _ _ hb e he
+              simp only [encEntry] at hb'
+              split at hb'
+              · simp at hb'
+              · rename_i hk1
+                split at hb'
+                · simp at hb'
+                · rename_i kb hkb
+                  split at hb'
+                  · simp at hb'
+                  · rename_i hk2
+                    split at hb'
+                    · simp at hb'
+                    · rename_i vb hvb
+                      simp at hk1 hk2
+                      exact ⟨hk1, hk2, ⟨kb, hkb⟩, ⟨vb, hvb⟩⟩
+            have : encMany (encEntry F kk vk (encBody F max' r')) es = .error (.maxDepthExceeded max') := by
+              apply encMany_error_of
+              · intro e he
+                obtain ⟨hk1, hk2, ⟨kb, hkb⟩, ⟨vb, hvb⟩⟩ := hentry e he
+                simp only [encEntry, hk1, hk2, ne_eq, not_true_eq_false, if_false]
+                rcases hel _ _ hkb with ⟨c, hc⟩ | he1
+                · rcases hel _ _ hvb with ⟨c2, hc2⟩ | he2
+                  · left; simp [hc, hc2]
+                  · right; simp [hc, he2]
+                · right; simp [he1]
+              · obtain ⟨e, he, hde⟩ := exists_deep_entries es r' (by omega)
+                obtain ⟨hk1, hk2, ⟨kb, hkb⟩, ⟨vb, hvb⟩⟩ := hentry e he
+                refine ⟨e, he, ?_⟩
+                simp only [encEntry, hk1, hk2, ne_eq, not_true_eq_false, if_false]
+                rcases hel _ _ hkb with ⟨c, hc⟩ | he1
+                · rcases hde with h1 | h2
+                  · have := ih _ _ r' hkb h1
+                    rw [hc] at this; simp at this
+                  · simp [hc, ih _ _ r' hvb h2]
+                · simp [he1]
+            simp [this]
+/-- The decoder accepts only values within the depth allowance. -/
+theorem decBody_depth {X Y : Type} [DecidableEq X] (F : Flavour X Y) (wfc : Y → Prop) (hF : F.Lawful wfc)
+    (max rem : Nat) (vk : VK X) (bs : Bytes) (v : Value X Y) (rest : Bytes)
+    (h : decBody F max rem vk bs = .ok (v, rest)) : v.depth ≤ rem := by
+  obtain ⟨_, _, body, hbody, _⟩ := encBody_decBody F wfc hF max max rem vk bs v rest h
+  exact encBody_depth F max rem v body hbody
+
+/-- If every element (given by its own encoding) either decodes or fails with `E`, and some element
+fails, decoding the sequence fails with `E`. -/
+theorem decMany_error_of {α : Type} (g : α → Except EErr Bytes) (f : Bytes → R α) (E : DErr) (as : List α)
+    (hall : ∀ a ∈ as, ∀ b rest, g a = .ok b → f (b ++ rest) = .ok (a, rest) ∨ ∃ k, f (b ++ rest) = .error (E, k))
+    (hex : ∃ a ∈ as, ∀ b rest, g a = .ok b → ∃ k, f (b ++ rest) = .error (E, k))
+    (bs rest : Bytes) (h : encMany g as = .ok bs) :
+    ∃ k, decMany f as.length (bs ++ rest) = .error (E, k) := by
+  induction as generalizing bs with
+  | nil => simp at hex
+  | cons a as ih =>
+    obtain ⟨b, t, hb, ht, rfl⟩ := (encMany_cons_ok g a as bs).1 h
+    simp only [List.length_cons, decMany, List.append_assoc]
+    rcases hall a (by simp) b (t ++ rest) hb with hok | ⟨k, hk⟩
+    · rw [hok]
+      have hex' : ∃ x ∈ as, ∀ b rest, g x = .ok b → ∃ k, f (b ++ rest) = .error (E, k) := by
+        obtain ⟨x, hx, hxe⟩ := hex
+        simp at hx
+        rcases hx with rfl | hx
+        · obtain ⟨k, hk⟩ := hxe b (t ++ rest) hb
+          rw [hok] at hk; simp at hk
+        · exact ⟨x, hx, hxe⟩
+      obtain ⟨k, hk⟩ := ih (fun x hx => hall x (by simp [hx])) hex' t ht
+      exact ⟨k, by simp [hk]⟩
+    · exact ⟨k, by simp [hk]⟩
+
+/-- The encoding of a value is rejected by the decoder with `MaxDepthExceeded` (and nothing else)
+when the limit is below the value's depth. -/
+theorem decBody_depth_fail {X Y : Type} [DecidableEq X] (F : Flavour X Y) (wfc : Y → Prop) (hF : F.Lawful wfc)
+    (max max' rem : Nat) :
+    ∀ (v : Value X Y) (body rest : Bytes) (rem' : Nat), v.WF F.utf8 wfc → encBody F max rem v = .ok body →
+      rem' < v.depth → ∃ k, decBody F max' rem' (v.kind F) (body ++ rest) = .error (.maxDepthExceeded max', k) := by
+  induction rem with
+  | zero => intro v body rest rem' _ h; simp [encBody] at h
+  | succ rem ih =>
+    intro v body rest rem' hwf h hd
+    have hk := hF.kinds
+    cases rem' with
+    | zero => exact ⟨(body ++ rest).length, by simp [decBody]⟩
+    | succ r' =>
+      -- one element, given its encoding at `rem`: decodes at `r'` if shallow, MaxDepthExceeded if deep
+      have hel : ∀ (a : Value X Y) (b' rest' : Bytes), a.WF F.utf8 wfc → encBody F max rem a = .ok b' →
+          decBody F max' r' (a.kind F) (b' ++ rest') = .ok (a, rest') ∨
+          ∃ k, decBody F max' r' (a.kind F) (b' ++ rest') = .error (.maxDepthExceeded max', k) := by
+        intro a b' rest' hwa hb'
+        by_cases hda : a.depth ≤ r'
+        · left
+          exact decBody_encBody F wfc hF max' max' r' a b' rest' hwa (encBody_of_depth F max max' rem a b' r' hb' hda)
+        · right
+          exact ih a b' rest' r' hwa hb' (by omega)
+      have hfield : ∀ fs : List (Value X Y), WFList F.utf8 wfc fs → r' < depthList fs → ∀ b rest',
+          encMany (encField F (encBody F max rem)) fs = .ok b →
+          ∃ k, decMany (decField F (decBody F max' r')) fs.length (b ++ rest') = .error (.maxDepthExceeded max', k) := by
+        intro fs hwfs hdl b rest' hb
+        have hw := (WFList_iff _ _ _).1 hwfs
+        refine decMany_error_of _ _ _ fs ?_ ?_ b rest' hb
+        · intro a ha b' rest'' hb'
+          simp only [encField] at hb'
+          split at hb'
+          · simp at hb'
+          · rename_i b'' hb''
+            simp at hb'; subst hb'
+            simp only [decField, List.cons_append, readValueKind_toU8 F.kc hk]
+            exact hel a b'' rest'' (hw a ha) hb''
+        · obtain ⟨a, ha, hda⟩ := exists_deep_list fs r' hdl
+          refine ⟨a, ha, ?_⟩
+          intro b' rest'' hb'
+          simp only [encField] at hb'
+          split at hb'
+          · simp at hb'
+          · rename_i b'' hb''
+            simp at hb'; subst hb'
+            simp only [decField, List.cons_append, readValueKind_toU8 F.kc hk]
+            exact ih a b'' rest'' r' (hw a ha) hb'' hda
+      cases v with
+      | bool _ => simp [Value.depth] at hd
+      | int _ _ => simp [Value.depth] at hd
+      | string _ => simp [Value.depth] at hd
+      | custom _ => simp [Value.depth] at hd
+      | enum d fs =>
+        simp only [Value.depth] at hd
+        simp only [Value.WF] at hwf
+        simp only [encBody] at h
+        split at h
+        · simp at h
+        · rename_i sz hsz
+          split at h
+          · simp at h
+          · rename_i b hb
+            simp at h; subst h
+            obtain ⟨hmax, rfl⟩ := (writeSize_ok_iff _ _).1 hsz
+            obtain ⟨k, hk'⟩ := hfield fs hwf (by omega) b rest hb
+            exact ⟨k, by simp [decBody, Value.kind, readByte, readSize_sizeBytes _ _ hmax, hk']⟩
+      | tuple fs =>
+        simp only [Value.depth] at hd
+        simp only [Value.WF] at hwf
+        simp only [encBody] at h
+        split at h
+        · simp at h
+        · rename_i sz hsz
+          split at h
+          · simp at h
+          · rename_i b hb
+            simp at h; subst h
+            obtain ⟨hmax, rfl⟩ := (writeSize_ok_iff _ _).1 hsz
+            obtain ⟨k, hk'⟩ := hfield fs hwf (by omega) b rest hb
+            exact ⟨k, by simp [decBody, Value.kind, readSize_sizeBytes _ _ hmax, hk']⟩
+      | array ek es =>
+        simp only [Value.depth] at hd
+        simp only [Value.WF] at hwf
+        simp only [encBody] at h
+        split at h
+        · simp at h
+        · rename_i sz hsz
+          split at h
+          · simp at h
+          · rename_i b hb
+            simp at h; subst h
+            obtain ⟨hmax, rfl⟩ := (writeSize_ok_iff _ _).1 hsz
+            have hw := (WFList_iff _ _ _).1 hwf
+            obtain ⟨k, hk'⟩ : ∃ k, decMany (decBody F max' r' ek) es.length (b ++ rest) = .error (.maxDepthExceeded max', k) := by
+              refine decMany_error_of _ _ _ es ?_ ?_ b rest hb
+              · intro a ha b' rest'' hb'
+                simp only [encElem] at hb'
+                split at hb'
+                · simp at hb'
+                · rename_i hkind
+                  simp at hkind
+                  rw [← hkind]
+                  exact hel a b' rest'' (hw a ha) hb'
+              · obtain ⟨a, ha, hda⟩ := exists_deep_list es r' (by omega)
+                refine ⟨a, ha, ?_⟩
+                intro b' rest'' hb'
+                simp only [encElem] at hb'
+                split at hb'
+                · simp at hb'
+                · rename_i hkind
+                  simp at hkind
+                  rw [← hkind]
+                  exact ih a b' rest'' r' (hw a ha) hb' hda
+            exact ⟨k, by simp [decBody, Value.kind, readValueKind_toU8 F.kc hk, readSize_sizeBytes _ _ hmax, hk']⟩
+      | map kk vk es =>
+        simp only [Value.depth] at hd
+        simp only [Value.WF] at hwf
+        simp only [encBody] at h
+        split at h
+        · simp at h
+        · rename_i sz hsz
+          split at h
+          · simp at h
+          · rename_i b hb
+            simp at h; subst h
+            obtain ⟨hmax, rfl⟩ := (writeSize_ok_iff _ _).1 hsz
+            have hw := (WFEntries_iff _ _ _).1 hwf
+            -- what `encEntry e = ok b'` says
+            have hsplit : ∀ (e : Value X Y × Value X Y) (b' : Bytes), encEntry F kk vk (encBody F max rem) e = .ok b' →
+                e.1.kind F = kk ∧ e.2.kind F = vk ∧ ∃ kb vb, encBody F max rem e.1 = .ok kb ∧
+                  encBody F max rem e.2 = .ok vb ∧ b' = kb ++ vb := by
+              intro e b' hb'
+              simp only [encEntry] at hb'
+              split at hb'
+              · simp at hb'
+              · rename_i hk1
+                split at hb'
+                · simp at hb'
+                · rename_i kb hkb
+                  split at hb'
+                  · simp at hb'
+                  · rename_i hk2
+                    split at hb'
+                    · simp at hb'
+                    · rename_i vb hvb
+                      simp at hk1 hk2 hb'
+                      exact ⟨hk1, hk2, kb, vb, hkb, hvb, hb'.symm⟩
+            obtain ⟨k, hk'⟩ : ∃ k, decMany (decEntry kk vk (decBody F max' r')) es.length (b ++ rest) =
+                .error (.maxDepthExceeded max', k) := by
+              refine decMany_error_of _ _ _ es ?_ ?_ b rest hb
+              · intro e he b' rest'' hb'
+                obtain ⟨hk1, hk2, kb, vb, hkb, hvb, rfl⟩ := hsplit e b' hb'
+                have hwe := hw e he
+                simp only [decEntry, List.append_assoc]
+                rcases hel e.1 kb (vb ++ rest'') hwe.1 hkb with h1 | ⟨k, h1⟩
+                · rw [hk1] at h1
+                  rw [h1]
+                  rcases hel e.2 vb rest'' hwe.2 hvb with h2 | ⟨k, h2⟩
+                  · rw [hk2] at h2
+                    left; simp [h2]
+                  · rw [hk2] at h2
+                    right; exact ⟨k, by simp [h2]⟩
+                · rw [hk1] at h1
+                  right; exact ⟨k, by simp [h1]⟩
+              · obtain ⟨e, he, hde⟩ := exists_deep_entries es r' (by omega)
+                refine ⟨e, he, ?_⟩
+                intro b' rest'' hb'
+                obtain ⟨hk1, hk2, kb, vb, hkb, hvb, rfl⟩ := hsplit e b' hb'
+                have hwe := hw e he
+                simp only [decEntry, List.append_assoc]
+                rcases hel e.1 kb (vb ++ rest'') hwe.1 hkb with h1 | ⟨k, h1⟩
+                · rw [hk1] at h1
+                  rw [h1]
+                  rcases hde with hd1 | hd2
+                  · have hle := decBody_depth F wfc hF max' r' _ _ _ _ h1
+                    omega
+                  · obtain ⟨k, h2⟩ := ih e.2 vb rest'' r' hwe.2 hvb hd2
+                    rw [hk2] at h2
+                    exact ⟨k, by simp [h2]⟩
+                · rw [hk1] at h1
+                  exact ⟨k, by simp [h1]⟩
+            exact ⟨k, by simp [decBody, Value.kind, readValueKind_toU8 F.kc hk, readSize_sizeBytes _ _ hmax, hk']⟩
 end Radix.Sbor
